@@ -108,6 +108,14 @@ def generate(rng, n, k):
             twin["path"] = pool[0]["path"] + ".latest"
             pool.append(twin)
             ops += [["Server", "x86_64", 0], ["Server", "x86_64", len(pool) - 1]]
+            # one file listed in two cells by two objects that differ in other attributes (a shared netinst ISO with a
+            # subvariant per variant): the path is not an identity across cells
+            other = copy.deepcopy(pool[1])
+            other["subvariant"] = "Other"
+            other["volume_id"] = "other-vol"
+            other["disc_number"] = len(pool) + 1
+            pool.append(other)
+            ops += [["Server", "x86_64", 1], ["Client", "ppc64le", len(pool) - 1]]
             orders = []
             for _ in range(k):
                 o = list(ops)
